@@ -449,6 +449,17 @@ def jobs(tier, seed):
     js = []
     for i in range(len(OPS_FULL)):
         js.append(dict(first=i, depth=depth, tier=tier))
+    # the same histories on ONE live table object (no reopen between operations): state the
+    # object keeps in memory between calls is invisible to the image-based search above
+    for i in range(len(OPS_FULL)):
+        js.append(dict(kind='live', first=[i], depth=3 if tier == 'quick' else 4))
+    nd = len(live_deep_ops())
+    for i in range(nd):
+        if tier == 'quick':
+            js.append(dict(kind='live', first=[i], depth=5, deep=True))
+        else:
+            for j in range(nd):
+                js.append(dict(kind='live', first=[i, j], depth=7, deep=True))
     if seed:
         k = seed % len(js)
         js = js[k:] + js[:k]
@@ -464,9 +475,130 @@ def ops_by_depth(depth, tier):
     return [OPS_FULL] * min(depth, 3) + [OPS_REDUCED] * max(0, depth - 3)
 
 
+def run_history_live(hist, path):
+    """Apply a whole history to one table object; -> (violation, index of failing op, obs)"""
+    table = URLTableHookWrapper(SQLiteURLTable(path))
+    ref = RefTable()
+    obs = []
+    try:
+        for k, op in enumerate(hist):
+            try:
+                v, ret = apply_op(table, ref, op)
+                if v is None:
+                    v = compare_all(table, ref)
+            except Exception as e:      # noqa
+                v, ret = 'operation raised %s: %s' % (type(e).__name__, e), None
+            obs.append([repr(ret), v])
+            if v:
+                return v, k, obs
+        return None, None, obs
+    finally:
+        table.close()
+
+
+LIVE_DEEP = None
+
+
+def live_deep_ops():
+    """Reduced alphabet for the deep live-object search: the status machine's mutators."""
+    global LIVE_DEEP
+    if LIVE_DEEP is None:
+        want = [('add', [(0, None, None)]), ('add', [(0, None, None), (0, None, None),
+                                                      (1, None, None)]),
+                ('checkout', 'todo', None), ('checkout', 'error', None),
+                ('checkin', 0, 'done', True, None), ('checkin', 0, 'error', True, None),
+                ('release',), ('remove', [0]), ('checkout', 'todo', 1)]
+        LIVE_DEEP = [op for op in OPS_FULL if op in want]
+    return LIVE_DEEP
+
+
+def run_live(job, res):
+    """Depth-first search over operation histories applied to ONE live in-memory table
+    object.  The state (SQLite memory database + whatever the table object keeps between
+    calls) is snapshotted by os.fork(): every node of the history tree is a process that
+    inherited its prefix's table, so no prefix is re-executed and nothing is reopened."""
+    from vt import histfork
+    _imports()
+    levels = [OPS_FULL] * job['depth'] if not job.get('deep') else \
+        [live_deep_ops()] * job['depth']
+    table = URLTableHookWrapper(SQLiteURLTable(':memory:'))
+    ref = RefTable()
+    found = []
+
+    def apply(op):
+        try:
+            v, ret = apply_op(table, ref, op)
+            if v is None:
+                v = compare_all(table, ref)
+        except Exception as e:      # noqa
+            v = 'operation raised %s: %s' % (type(e).__name__, e)
+        return v
+
+    def node(hist):
+        """runs in the fork that owns the state after ``hist``; -> [count, violations]"""
+        n, viols = 0, []
+        for op in levels[len(hist)]:
+            def child(op=op):
+                v = apply(op)
+                if v:
+                    return [1, [[v, hist + [op]]]]
+                if len(hist) + 1 < len(levels):
+                    c = node(hist + [op])
+                    return [1 + c[0], c[1][:3]]
+                return [1, []]
+            r = histfork.in_fork(child, 600)
+            if isinstance(r, dict):
+                viols.append(['operation hangs or kills the interpreter', hist + [op]])
+                n += 1
+            else:
+                n += r[0]
+                viols.extend(r[1])
+            if len(viols) > 6:
+                break
+        return [n, viols]
+
+    try:
+        first = [levels[0][i] for i in job['first'] if i < len(levels[0])]
+        if len(first) == len(job['first']):
+            def top():
+                for op in first:
+                    v = apply(op)
+                    if v:
+                        return [1, [[v, first]]]
+                c = node(list(first))
+                return [len(first) + c[0], c[1]]
+            r = histfork.in_fork(top, 3000)
+            if isinstance(r, dict):
+                raise RuntimeError('live search died: %r' % (r,))
+            res['evaluations'] += r[0]
+            res['transitions'] += r[0]
+            res['extra']['live_histories'] = res['extra'].get('live_histories', 0) + r[0]
+            for v, hist in r[1]:
+                k = len(hist) - 1
+                sig = 'C14:live:%s:%s' % (' '.join(v.split(' ')[:4])[:50], hist[k][0])
+                if not any(x['signature'] == sig for x in res['violations']) and \
+                        len(res['violations']) < 5:
+                    res['violations'].append(dict(
+                        violation='%s [one live table object, after %s]' % (
+                            v, summarize(hist)),
+                        signature=sig, history=hist, kind='live'))
+            res['states'].add(h64(('live', tuple(job['first']), job['depth'],
+                                   bool(job.get('deep')))))
+            res['distinct'] = set(res['states'])
+            res['outcomes']['live-ok'] = r[0]
+            res['samples'].append(dict(mode='one live table object (fork tree)',
+                                       first_ops=summarize(first), transitions=r[0],
+                                       depth=job['depth'], deep=bool(job.get('deep'))))
+    finally:
+        table.close()
+    return res
+
+
 def run_job(job):
     res = dict(evaluations=0, states=set(), transitions=0, outcomes={}, violations=[],
                samples=[], distinct=set(), extra={'merges': 0, 'differential_checks': 0})
+    if job.get('kind') == 'live':
+        return run_live(job, res)
     sp = Space()
     try:
         obd = ops_by_depth(job['depth'], job['tier'])
@@ -493,6 +625,9 @@ def run_job(job):
 
 def replay(rec):
     _imports()
+    if rec.get('kind') == 'live':
+        v, k, obs = run_history_live([fix_op(op) for op in rec['history']], ':memory:')
+        return (rec['violation'] if v else None), (rec['signature'] if v else None), obs
     sp = Space()
     try:
         if rec.get('op2') is not None:
@@ -546,7 +681,10 @@ def describe(tier):
              'URLs (one with a query, one non-ASCII) + an absent one; BFS to depth %d '
              '(thorough: reduced %d-operation alphabet beyond depth 3), partitioned by first '
              'operation; states deduplicated by a rank-normalised dump of all five tables read '
-             'with sqlite3 directly; every transition closes and re-opens the on-disk table.  '
+             'with sqlite3 directly; every transition closes and re-opens the on-disk table; '
+             'plus every history of depth 3 (4) over the full alphabet, and of depth 5 (7) over '
+             'the 9 mutators of the status machine, applied to ONE live in-memory table object '
+             'without reopening (fork tree: each node inherits its prefix\'s live object).  '
              'distinct = distinct database states'
              % (len(OPS_FULL), 3 if tier == 'quick' else 4, len(OPS_REDUCED)),
         bounds=dict(depth=3 if tier == 'quick' else 4, ops=len(OPS_FULL)),
